@@ -118,6 +118,66 @@ class MObj:
         return ("O", self.cls) + tuple(sorted((k, freeze(v)) for k, v in self.fields.items()))
 
 
+class Lin:
+    """A linear combination of symbols with exact rational coefficients (plus a constant): the values of range bounds and grid
+    points. Products of two symbolic values are outside the model."""
+
+    __slots__ = ("terms",)
+
+    def __init__(self, terms: dict[str, Any] | None = None):
+        from fractions import Fraction
+
+        self.terms = {k: Fraction(v) for k, v in (terms or {}).items() if v != 0}
+
+    @staticmethod
+    def sym(name: str) -> "Lin":
+        return Lin({name: 1})
+
+    @staticmethod
+    def lift(x: Any) -> "Lin | None":
+        from fractions import Fraction
+
+        if isinstance(x, Lin):
+            return x
+        if isinstance(x, bool):
+            return None
+        if isinstance(x, int):
+            return Lin({"": Fraction(x)})
+        if isinstance(x, float) and x == int(x):
+            return Lin({"": Fraction(int(x))})
+        if isinstance(x, Fraction):
+            return Lin({"": x})
+        return None
+
+    def add(self, o: "Lin", sign: int = 1) -> "Lin":
+        t = dict(self.terms)
+        for k, v in o.terms.items():
+            t[k] = t.get(k, 0) + sign * v
+        return Lin(t)
+
+    def scale(self, c: Any) -> "Lin":
+        from fractions import Fraction
+
+        return Lin({k: v * Fraction(c) for k, v in self.terms.items()})
+
+    def const(self) -> Any:
+        return self.terms.get("", 0) if set(self.terms) <= {""} else None
+
+    def key(self) -> tuple:
+        return tuple(sorted(self.terms.items()))
+
+    def __eq__(self, o: object) -> bool:
+        return isinstance(o, Lin) and self.key() == o.key()
+
+    def __hash__(self) -> int:
+        return hash(self.key())
+
+    def __repr__(self) -> str:
+        if not self.terms:
+            return "0"
+        return " + ".join((f"{v}*{k}" if v != 1 else k) if k else str(v) for k, v in sorted(self.terms.items()))
+
+
 class TokenStream:
     pass
 
@@ -183,7 +243,7 @@ class AbsExec:
         return Unknown(f"{self.qual}:{getattr(e, 'lineno', '?')}: `{unparse(e)[:70]}` is outside the parser model{(' (' + why + ')') if why else ''}")
 
     def truth(self, v: Any, e: ast.AST) -> bool:
-        if isinstance(v, bool) or v is None or isinstance(v, (int, str)):
+        if isinstance(v, bool) or v is None or isinstance(v, (int, str, float)):
             return bool(v)
         if isinstance(v, (list, tuple, set, frozenset, dict)):
             return len(v) > 0
@@ -223,7 +283,7 @@ class AbsExec:
                 return self.hooks[e.id]
             if e.id in BUILTIN_EXC:
                 return ("exc-class", e.id)
-            if e.id in ("len", "reversed", "list", "tuple", "any", "all", "bool", "isinstance", "set", "frozenset", "iter", "str", "enumerate", "sorted", "min", "max", "range", "type", "locals", "vars", "setattr", "getattr", "hasattr", "delattr", "dict", "zip"):
+            if e.id in ("len", "reversed", "list", "tuple", "any", "all", "bool", "isinstance", "set", "frozenset", "iter", "str", "enumerate", "sorted", "min", "max", "range", "type", "locals", "vars", "setattr", "getattr", "hasattr", "delattr", "dict", "zip", "round", "pow", "abs", "int", "float"):
                 return ("builtin", e.id)
             if e.id == "settings":
                 return SettingsV()
@@ -250,7 +310,7 @@ class AbsExec:
             v = self.ev(e.operand, env)
             if isinstance(e.op, ast.Not):
                 return not self.truth(v, e.operand)
-            if isinstance(e.op, ast.USub) and isinstance(v, int):
+            if isinstance(e.op, ast.USub) and isinstance(v, (int, float)):
                 return -v
             raise self.unknown(e)
         if isinstance(e, ast.IfExp):
@@ -315,13 +375,43 @@ class AbsExec:
             raise self.unknown(e)
         if isinstance(e, ast.BinOp):
             a, b = self.ev(e.left, env), self.ev(e.right, env)
-            if isinstance(a, int) and isinstance(b, int):
-                if isinstance(e.op, ast.Add):
-                    return a + b
-                if isinstance(e.op, ast.Sub):
-                    return a - b
-                if isinstance(e.op, ast.Mult):
-                    return a * b
+            num = (int, float)
+            if isinstance(a, num) and isinstance(b, num) and not isinstance(a, bool) and not isinstance(b, bool):
+                try:
+                    if isinstance(e.op, ast.Add):
+                        return a + b
+                    if isinstance(e.op, ast.Sub):
+                        return a - b
+                    if isinstance(e.op, ast.Mult):
+                        return a * b
+                    if isinstance(e.op, ast.Div):
+                        return a / b
+                    if isinstance(e.op, ast.FloorDiv):
+                        return a // b
+                    if isinstance(e.op, ast.Mod):
+                        return a % b
+                    if isinstance(e.op, ast.Pow):
+                        return a ** b
+                except ZeroDivisionError:
+                    raise Internal("ZeroDivisionError", f"`{unparse(e)}`", e) from None
+            if isinstance(a, Lin) or isinstance(b, Lin):
+                la, lb = Lin.lift(a), Lin.lift(b)
+                if la is not None and lb is not None:
+                    if isinstance(e.op, ast.Add):
+                        return la.add(lb)
+                    if isinstance(e.op, ast.Sub):
+                        return la.add(lb, -1)
+                    if isinstance(e.op, ast.Mult) and (la.const() is not None or lb.const() is not None):
+                        return lb.scale(la.const()) if la.const() is not None else la.scale(lb.const())
+                    if isinstance(e.op, ast.Div) and lb.const() is not None:
+                        if lb.const() == 0:
+                            raise Internal("ZeroDivisionError", f"`{unparse(e)}`", e)
+                        from fractions import Fraction
+
+                        return la.scale(Fraction(1) / lb.const())
+                raise self.unknown(e, "arithmetic on symbolic values outside the linear model")
+            if isinstance(a, list) and isinstance(b, int) and isinstance(e.op, ast.Mult):
+                return list(a) * b
             if isinstance(a, list) and isinstance(b, list) and isinstance(e.op, ast.Add):
                 return a + b
             if isinstance(a, (Opaque, str)) and isinstance(b, (Opaque, str)):
@@ -426,6 +516,8 @@ class AbsExec:
             if name in v.fields:
                 return v.fields[name]
             return ("bound", v, name)
+        if isinstance(v, (Lin, int, float)) and not isinstance(v, bool):
+            return ("bound", v, name)
         if isinstance(v, (list, tuple, Objects, Logger, Opaque, str, dict, frozenset)) and not (isinstance(v, tuple) and v and v[0] in ("class",)):
             return ("bound", v, name)
         if isinstance(v, tuple) and v and v[0] in ("class",):
@@ -510,6 +602,18 @@ class AbsExec:
             return {k: v for k, v in self.iterate(args[0], e)}
         if name == "zip":
             return [tuple(x) for x in zip(*[self.iterate(a, e) for a in args])]
+        nums = all(isinstance(a, (int, float)) and not isinstance(a, bool) for a in args)
+        if name in ("max", "min") and args and nums:
+            return max(args) if name == "max" else min(args)
+        if name == "abs" and nums and len(args) == 1:
+            return abs(args[0])
+        if name in ("int", "float") and len(args) == 1 and (nums or isinstance(args[0], Lin)):
+            return args[0] if isinstance(args[0], Lin) else (int(args[0]) if name == "int" else float(args[0]))
+        if name in ("round", "pow"):
+            hook = self.hooks.get(name)
+            if hook is not None:
+                return hook(self, e, args, {})
+            raise self.unknown(e, f"{name} is floating-point arithmetic")
         if name == "len" and isinstance(args[0], (list, tuple, set, frozenset, dict)):
             return len(args[0])
         if name == "reversed" and isinstance(args[0], (list, tuple)):
@@ -635,6 +739,8 @@ class AbsExec:
                 return Opaque("call")
         if isinstance(recv, Registry):
             return Opaque(f"registry.{name}")
+        if isinstance(recv, (Lin, int, float)) and name in ("astype", "item", "squeeze", "copy"):
+            return recv
         raise self.unknown(e, f"method {name} of {type(recv).__name__}")
 
     # ------------------------------------------------------------------ statements
@@ -683,6 +789,10 @@ class AbsExec:
         elif isinstance(s, ast.AnnAssign):
             if s.value is not None:
                 self.bind(s.target, self.ev(s.value, env), env)
+        elif isinstance(s, ast.AugAssign) and isinstance(s.target, ast.Subscript):
+            load = ast.copy_location(ast.Subscript(value=s.target.value, slice=s.target.slice, ctx=ast.Load()), s.target)
+            both = ast.copy_location(ast.BinOp(left=load, op=s.op, right=s.value), s)
+            self.bind(s.target, self.ev(both, env), env)
         elif isinstance(s, ast.AugAssign):
             cur = self.ev(ast.copy_location(ast.Name(id=s.target.id, ctx=ast.Load()), s), env) if isinstance(s.target, ast.Name) else None
             v = self.ev(s.value, env)
